@@ -3,6 +3,9 @@
 (* The enumeration grid of C14: operation type x value class x position in *)
 (* a batch x identifier class.  There is no behaviour to explore - every grid point is an     *)
 (* initial state; TLC enumerates them all and prints one line per point.   *)
+(* The operation types "...txreuse" are multi-value inserts made inside a   *)
+(* user transaction from a slice the caller REUSES (overwrites) before the *)
+(* transaction ends: what travels must be what was inserted.               *)
 (* The harness maps the class names to concrete Go values (every numeric   *)
 (* width, pointers, structs, maps, slices, nesting, empty containers,      *)
 (* unicode / separator / escape-heavy strings, integers beyond 2^53),      *)
@@ -14,15 +17,15 @@
 (***************************************************************************)
 EXTENDS Integers, Sequences, TLC, Json
 OpTypes == {"counter.inc", "map.put", "map.remove", "list.insert", "list.update", "list.delete",
-            "doc.put", "doc.rmv", "doc.ins", "doc.upd", "doc.del", "tx", "snapshot.counter", "snapshot.map", "snapshot.list", "snapshot.doc"}
+            "doc.put", "doc.rmv", "doc.ins", "doc.upd", "doc.del", "tx", "list.insert.txreuse", "doc.ins.txreuse", "snapshot.counter", "snapshot.map", "snapshot.list", "snapshot.doc"}
 ValueClasses == {"int", "int8", "int16", "int32", "int64", "uint", "uint8", "uint16", "uint32", "uint64", "bigint", "maxuint64", "negint",
                  "float32", "f32frac", "nestedbig", "structnum", "float64", "bigfloat", "tinyfloat", "negzero", "bool", "str", "emptystr", "unicode", "emoji", "separators", "escapes", "control", "longstr",
                  "ptrint", "ptrstr", "struct", "map", "nestedmap", "emptymap", "slice", "emptyslice", "mixedslice", "deep"}
 Positions == {"single", "first", "last"}
 \* the identifier the operation carries: small counters; a non-zero era; counters beyond 32 bits
 IdClasses == {"small", "era", "big"}
-HasValue(t) == t \in {"map.put", "list.insert", "list.update", "doc.put", "doc.ins", "doc.upd", "snapshot.map", "snapshot.list", "snapshot.doc"}
-HasBatch(t) == t \in {"list.insert", "list.update", "doc.ins", "doc.upd"}
+HasValue(t) == t \in {"map.put", "list.insert", "list.update", "doc.put", "doc.ins", "doc.upd", "list.insert.txreuse", "doc.ins.txreuse", "snapshot.map", "snapshot.list", "snapshot.doc"}
+HasBatch(t) == t \in {"list.insert", "list.update", "doc.ins", "doc.upd", "list.insert.txreuse", "doc.ins.txreuse"}
 Grid == {g \in [type : OpTypes, cls : ValueClasses, pos : Positions, idc : IdClasses] :
             /\ (~HasValue(g.type) => g.cls = "int")
             /\ (~HasBatch(g.type) => g.pos = "single")
